@@ -39,6 +39,13 @@ def swap_dir(dirs, directory):
         dirs[0] = tmp
 
 
+def _directory_of(path):
+    """ The directory a file really lives in (as given, unless the file is reached through a symbolic link). """
+    given = os.path.dirname(path)
+    real = os.path.dirname(os.path.realpath(path))
+    return given if os.path.realpath(given or os.curdir) == real else real
+
+
 class FileProcessor(object):
 
     def __init__(self, process_content, include_dirs):
@@ -58,7 +65,7 @@ class FileProcessor(object):
         '''
         if not os.path.isfile(path):
             raise FileNotFoundError(path)
-        with push_dir(self.include_dirs, os.path.dirname(path)):
+        with push_dir(self.include_dirs, _directory_of(path)):
             return self._process_file(path)
 
     def process_leaf(self, leaf):
@@ -69,7 +76,8 @@ class FileProcessor(object):
         path = _get_first_existing_path(leaf, self.include_dirs)
         if not path:
             raise FileNotFoundError(leaf)
-        with swap_dir(self.include_dirs, os.path.dirname(path)):
+        """ a file is one file however it is reached: its own includes are searched next to the file itself """
+        with swap_dir(self.include_dirs, _directory_of(path)):
             return self._process_file(path)
 
     def _process_file(self, path):
